@@ -25,7 +25,11 @@ def stepLine (prop : String) (rs : RunSt) (line : String) (impl : Option Outcome
       let (d', o) := worldOp rs.d fields
       let verdict := if rs.diverged then "ok" else judge prop rs.d fields impl o implMsg
       let div := if f == "reset" then false else rs.diverged || !(agree impl o)
-      ({ d := d', diverged := div }, o, verdict)
+      -- the ghost history survives the model step (worldOp keeps unknown fields) and is updated
+      -- from the implementation's outcome
+      let d'' := if f == "reset" then d' else
+        ghostUpdate d' rs.d fields impl
+      ({ d := d'', diverged := div }, o, verdict)
   | [] => (rs, .okPlain, "ok")
 
 partial def loop (prop : String) (ops impl : IO.FS.Stream) (out : IO.FS.Handle) (st : RunSt) : IO Unit := do
